@@ -3,7 +3,7 @@
  "name": "group_desc_csum",
  "props": ["C14"],
  "level": "U",
- "tier": "wip",
+ "tier": "quick",
  "harness": "h_gd_csum",
  "enforce": ["ext2fs_group_desc_csum"],
  "sources": ["lib/ext2fs/blknum.c"],
@@ -20,7 +20,7 @@
  "name": "group_desc_csum_set",
  "props": ["C14"],
  "level": "U",
- "tier": "wip",
+ "tier": "quick",
  "harness": "h_gd_set",
  "enforce": ["ext2fs_group_desc_csum_set"],
  "sources": ["lib/ext2fs/blknum.c"],
@@ -37,7 +37,7 @@
  "name": "group_desc_csum_verify",
  "props": ["C14"],
  "level": "U",
- "tier": "wip",
+ "tier": "quick",
  "harness": "h_gd_verify",
  "enforce": ["ext2fs_group_desc_csum_verify"],
  "sources": ["lib/ext2fs/blknum.c"],
